@@ -63,13 +63,22 @@ pub fn apply(se: &StorageEngine, item: &str) -> String {
         ("create", 2) => match se.create_knowledge_graph(p[1]) { Ok(()) => "ok".into(), Err(e) => err_code(&e) },
         ("drop", 2) => match se.drop_knowledge_graph(p[1]) { Ok(()) => "ok".into(), Err(e) => err_code(&e) },
         ("save", 2) => match se.save_knowledge_graph(p[1]) { Ok(()) => "ok".into(), Err(e) => err_code(&e) },
+        ("saveall", 1) => match se.save_all() { Ok(()) => "ok".into(), Err(e) => err_code(&e) },
         ("ins", 4) => match p[3].parse::<i64>() { Ok(id) => match se.insert_tuples_into(p[1], p[2], vec![tup(id)]) { Ok((n, d)) => format!("i{n}.{d}"), Err(e) => err_code(&e) }, Err(_) => "bad".into() },
         ("del", 4) => match p[3].parse::<i64>() { Ok(id) => match se.delete_tuples_from(p[1], p[2], vec![tup(id)]) { Ok(n) => format!("d{n}"), Err(e) => err_code(&e) }, Err(_) => "bad".into() },
         _ => "bad".into(),
     }
 }
 
-fn exec_h(tail: &str) -> String {
+/// engine configuration with the durability mode of the history (`i`mmediate, `b`atched, `a`sync)
+fn cfg_mode(d: &std::path::Path, mode: char) -> inputlayer::Config {
+    let mut c = cfg(d);
+    c.storage.persist.durability_mode = match mode { 'b' => inputlayer::DurabilityMode::Batched, 'a' => inputlayer::DurabilityMode::Async, _ => inputlayer::DurabilityMode::Immediate };
+    c
+}
+
+fn exec_h(tail: &str, mode: char) -> String {
+    let cfg = |d: &std::path::Path| cfg_mode(d, mode);
     let root = tmpdir();
     let mut se = Some(StorageEngine::new(cfg(root.path())).unwrap());
     let mut res = vec![]; let mut obs = vec![];
@@ -135,7 +144,9 @@ fn exec_s(head: &str, tail: &str) -> String {
 
 pub fn exec(req: &str) -> String {
     let (head, tail) = match req.split_once(" | ") { Some((h, t)) => (h, t), None => (req.trim_end_matches(" |"), "") };
-    if head == "c17.h" { exec_h(tail) } else if head.starts_with("c17.s ") { exec_s(head, tail) } else { "bad-request".into() }
+    if head == "c17.h" { exec_h(tail, 'i') }
+    else if let Some(m) = head.strip_prefix("c17.h D=") { match m { "i" | "b" | "a" => exec_h(tail, m.chars().next().unwrap()), _ => "bad-request".into() } }
+    else if head.starts_with("c17.s ") { exec_s(head, tail) } else { "bad-request".into() }
 }
 
 // ---------------------------------------------------------------------------------------------
@@ -163,6 +174,7 @@ impl Hist {
     }
     fn save_all(&mut self, ctx: &mut Ctx) { let mut ks = self.kgs.clone(); for i in (1..ks.len()).rev() { let j = ctx.below(i + 1); ks.swap(i, j); } for k in ks { self.push(format!("save,{k}")); } }
     fn line(&self) -> String { format!("c17.h | {}", self.items.join(" ; ")) }
+    fn line_mode(&self, m: char) -> String { format!("c17.h D={} | {}", m, self.items.join(" ; ")) }
 }
 
 fn random_history(ctx: &mut Ctx, kgs: &[&str], rels: &[&str], len: usize, save_before_restart: bool) -> String {
@@ -351,6 +363,30 @@ pub fn gen(ctx: &mut Ctx) -> Vec<String> {
     for n in ["", ".", "..", "a..b", "a/b", "a\\b", long128.as_str(), long129.as_str(), "a.b", "A", "a-b"] {
         let n = enc(n);
         out.push(format!("c17.h | create,{n} ; ins,{n},r,1 ; restart ; drop,{n} ; restart")); ctx.count("seq_name_validation");
+    }
+    // (5b) durability modes (immediate / batched / async): drop -> (re-create) -> save_all | clean shutdown -> restart.
+    //      Nothing of a dropped KG may be observable afterwards; the other KGs keep what was acknowledged.
+    //      Async mode has no WAL: there every restart is preceded by save_all. Histories stay far below the
+    //      8 KiB WAL BufWriter of batched mode.
+    for _ in 0..ctx.budget(160, 3000) {
+        let mode = *ctx.pick(&['b', 'b', 'b', 'a', 'i']);
+        let mut h = Hist::new();
+        let victim = *ctx.pick(&["a", "b"]);
+        let others: Vec<&str> = if ctx.chance(1, 3) { vec![] } else { vec!["c"] };
+        h.create(victim); for o in &others { h.create(o); }
+        for _ in 0..1 + ctx.below(3) { h.ins(victim, *ctx.pick(&["r", "s"])); }
+        if ctx.chance(1, 3) { h.push(format!("save,{victim}")); h.ins(victim, "r"); }
+        // writes to other KGs before the drop (in batched mode their buffered WAL lines are the known finding) or after it
+        let early = ctx.chance(1, 3);
+        if early { for o in &others { h.ins(o, "r"); } }
+        h.drop(victim);
+        if !early { for o in &others { h.ins(o, "r"); } }
+        if ctx.chance(1, 2) { h.create(victim); if ctx.chance(1, 2) { h.ins(victim, "t"); } }
+        if mode == 'a' || ctx.chance(1, 2) { h.push("saveall".into()); }
+        h.push("restart".into());
+        if ctx.chance(1, 3) { h.create(victim); h.ins(victim, "u"); if mode == 'a' { h.push("saveall".into()); } h.push("restart".into()); }
+        ctx.count(&format!("seq_durability_{mode}"));
+        out.push(h.line_mode(mode));
     }
     // (6) scheduled: insert / delete / create racing with drop (+ re-create) of the same KG, then restart
     let shapes: Vec<Vec<Vec<&str>>> = vec![
